@@ -117,6 +117,8 @@ type Run struct {
 	infraErr    []string
 	extViol     []string
 	replayPath  string
+	wsMu        sync.Mutex
+	ws          []*W
 	firstPass   bool // Main runs the body twice: first only the serial history phases, then everything
 }
 
@@ -134,6 +136,7 @@ type W struct {
 	outcomes   map[string]int64
 	dry        bool
 	serial     bool // the worker of Run.Serial: the only goroutine calling the library
+	cur        atomic.Pointer[inflight]
 	tick       int
 }
 
@@ -159,7 +162,65 @@ func (w *W) Expired() bool {
 	return w.R.expired.Load()
 }
 
-func (r *Run) newW() *W { return &W{R: r, outcomes: map[string]int64{}} }
+func (r *Run) newW() *W {
+	w := &W{R: r, outcomes: map[string]int64{}}
+	r.wsMu.Lock()
+	r.ws = append(r.ws, w)
+	r.wsMu.Unlock()
+	return w
+}
+
+// inflight is the probe execution a worker is in (watched by the watchdog: a call into the library that does not return).
+type inflight struct {
+	probe   string
+	arg     func() ([]byte, error)
+	initial bool
+	start   time.Time
+}
+
+// watchdog: a probe execution that has not returned after the limit is re-executed once on a fresh goroutine; if that does
+// not return either, it is reported as a violation of kind no_return (the entry point hangs on this input) with the usual
+// replay file, and the run ends - a hung call cannot be abandoned, and a check that never ends decides nothing.
+func (r *Run) watchdog(limit time.Duration) {
+	for {
+		time.Sleep(2 * time.Second)
+		r.wsMu.Lock()
+		ws := append([]*W(nil), r.ws...)
+		r.wsMu.Unlock()
+		for _, w := range ws {
+			f := w.cur.Load()
+			if f == nil || time.Since(f.start) < limit {
+				continue
+			}
+			arg, err := f.arg()
+			if err != nil {
+				continue
+			}
+			p := r.probes[f.probe]
+			done := make(chan struct{})
+			go func() {
+				defer func() { _ = recover(); close(done) }()
+				p.replay(arg, f.initial)
+			}()
+			select {
+			case <-done: // the second execution returned: the first one was only slow (or depends on state we do not have)
+				if w.cur.Load() == f {
+					r.Infra("probe %s arg %s did not return within %v but a re-execution did: no verdict", f.probe, arg, limit)
+					fmt.Printf("INFRASTRUCTURE ERROR: probe %s arg %s did not return within %v but a re-execution did: no verdict\n", f.probe, arg, limit)
+					os.Exit(2)
+				}
+				continue
+			case <-time.After(limit):
+			}
+			v := &Violation{Property: r.ID, Probe: f.probe, Kind: "no_return", Arg: arg, Phase: r.curPhase, FromInitialState: f.initial,
+				Detail: fmt.Sprintf("the call did not return within %v (twice): the entry point hangs on this input", limit)}
+			path := r.writeReplay(v)
+			fmt.Printf("  probe=%s kind=%s arg=%s\n    %s\n", v.Probe, v.Kind, v.Arg, v.Detail)
+			fmt.Printf("VIOLATION property=%s replay=%s\n", r.ID, path)
+			os.Exit(1)
+		}
+	}
+}
 
 func (w *W) flush() {
 	if w.dry {
@@ -319,7 +380,9 @@ func (p *Probe[A]) Do(w *W, a A) bool {
 	if initial && !p.SelfReset {
 		LibReset()
 	}
+	w.cur.Store(&inflight{probe: p.name, arg: func() ([]byte, error) { return json.Marshal(a) }, initial: initial, start: time.Now()})
 	kind, detail := p.call(a)
+	w.cur.Store(nil)
 	if kind == "" {
 		return true
 	}
@@ -449,6 +512,11 @@ func Main(id string, rule string, body func(r *Run)) {
 		body(r)
 		os.Exit(r.doReplay(*replay))
 	}
+	hang := 30 * time.Second
+	if *tier == "thorough" {
+		hang = 2 * time.Minute
+	}
+	go r.watchdog(hang)
 	r.firstPass = true
 	body(r)
 	r.firstPass = false
@@ -511,7 +579,22 @@ func (r *Run) doReplay(path string) int {
 		fmt.Fprintf(os.Stderr, "unknown probe %q\n", v.Probe)
 		return 2
 	}
-	kind, detail, err := p.replay(v.Arg, v.FromInitialState)
+	type res struct {
+		kind, detail string
+		err          error
+	}
+	ch := make(chan res, 1)
+	go func() {
+		k, d, e := p.replay(v.Arg, v.FromInitialState)
+		ch <- res{k, d, e}
+	}()
+	var kind, detail string
+	select {
+	case x := <-ch:
+		kind, detail, err = x.kind, x.detail, x.err
+	case <-time.After(60 * time.Second):
+		kind, detail = "no_return", "the call did not return within 60s: the entry point hangs on this input"
+	}
 	if err == nil && kind == "" && v.ConcurrentOnly {
 		for attempt := 0; attempt < 5 && kind == "" && err == nil; attempt++ {
 			kind, detail, err = p.stress(v.Arg, v.Noise, 16, 4000)
@@ -705,6 +788,17 @@ func (r *Run) finish() int {
 	sort.Strings(kinds)
 	fmt.Printf("%s: %d distinct violating points retained (%d violation events); kinds: %s\n", r.ID, len(unknown), r.violTotal, strings.Join(kinds, ", "))
 	return 1
+}
+
+// writeReplay stores one violation as a replay file and returns its path.
+func (r *Run) writeReplay(v *Violation) string {
+	dir := filepath.Join(Root, "replays", r.ID)
+	os.MkdirAll(dir, 0o755)
+	h := sha256.Sum256(append([]byte(v.Probe+"/"+v.Kind), v.Arg...))
+	path := filepath.Join(dir, hex.EncodeToString(h[:6])+".json")
+	vb, _ := json.MarshalIndent(v, "", " ")
+	os.WriteFile(path, append(vb, '\n'), 0o644)
+	return path
 }
 
 func firstLines(s string, n int) string {
